@@ -610,3 +610,133 @@ Example sagajit_converges :
      sg_eval_stop_all NumF xs [0%float; 0.908203125%float] (sg_tol NumF Pjit) = SStop d /\ length rest = 5%nat /\
      last rest ([], [], 0%float, true) = ([0.25%float; 3%float], [0.1875%float; 1.9375%float], 0x1.18c6318c6318cp-1%float, false).
 Proof. exact sagajit_converges_l. Qed.
+
+(* ===================================================================================
+   Round 6: getDirection is no longer an oracle.  ModelNewtonDir.get_direction composes C04's
+   model of matrixInverse.Run (Gauss-Jordan, plain and upper-triangular) and C05's model of
+   cholesky_ldl_forcepd in getDirection's operation order; [ND_model X bf dl] is the direction
+   "oracle" that just calls it.  The CLOSED machines are newton_root / newton_min with that
+   argument: only the objective (through AD), the line-search objective, the hook and the constraint callback are
+   left as oracles.  Every theorem of the newton sections above holds for them as an instance
+   (they are stated for EVERY direction oracle); restated here for the closed machines are the
+   clauses of the property, plus what is new: every direction in the log is the model's
+   function of the (mode, y, J) logged with it, the "Eigenvalue" mode never takes a step, and
+   over R Newton's iteration on a quadratic returns the exact critical point as converged. *)
+From ADV Require Import C07.ModelNewtonDir C07.ProofsNewtonDir C07.ExamplesNewtonDir.
+Require ADV.C05.Model.
+
+Section PropsNewtonClosed.
+Context {A : Type} (X : ADV.C05.Model.NumX A).
+Variable bf dl : A.       (* the two literals 1e-20 of cholesky_ldl_forcepd *)
+Variable K : consts (A := A).
+Variable NF : nat -> list A -> nw_answer (A := A).
+Variable NHK : nat -> nw_hookargs (A := A) -> bool.
+Variable MF : nat -> list A -> nm_answer (A := A).
+Variable MPHI : nat -> list A -> list A -> A -> phi_answer (A := A).
+Variable MHK : nat -> nm_hookargs (A := A) -> bool.
+Variable NCS : nat -> list A -> bool.
+Notation NMX := (ADV.C05.Model.nx X).
+Notation NDm := (ND_model X bf dl).
+
+(* (1) stop condition at the returned point, closed machines *)
+Theorem newton_closed_stop_condition : forall (P : nw_params) fuel x0 x tr,
+  newton_root NMX NF NDm NHK NCS P fuel x0 = (NwConv x, tr) ->
+  nwf NF NDm NHK NCS tr /\ nw_stop_ok NMX (nw_eps P) tr x.
+Proof. exact (newton_stop_l NMX NF NDm NHK NCS). Qed.
+Theorem newton_min_closed_stop_condition : forall (P : nm_params) fuel x0 x tr,
+  newton_min NMX K MF MPHI NDm MHK NCS P fuel x0 = (NmConv x, tr) ->
+  nmf MF MPHI NDm MHK NCS tr /\ nm_stop_ok NMX (nm_eps P) tr x.
+Proof. exact (newton_min_stop_l NMX K MF MPHI NDm MHK NCS). Qed.
+(* (2) hook arguments *)
+Theorem newton_closed_hook_arguments : forall (P : nw_params) fuel x0,
+  nw_hooks_ok (snd (newton_root NMX NF NDm NHK NCS P fuel x0)).
+Proof. exact (newton_hooks_l NMX NF NDm NHK NCS). Qed.
+Theorem newton_min_closed_hook_arguments : forall (P : nm_params) fuel x0,
+  nm_hooks_ok (snd (newton_min NMX K MF MPHI NDm MHK NCS P fuel x0)).
+Proof. exact (newton_min_hooks_l NMX K MF MPHI NDm MHK NCS). Qed.
+(* (3) constraints (RunRoot / RunCrit; RunMin stays refuted: F-NEWTON-MIN-CONS-LINE) *)
+Theorem newton_closed_constraints : forall (P : nw_params) fuel x0,
+  nw_point_accepted (nw_cons P) (snd (newton_root NMX NF NDm NHK NCS P fuel x0)) (fst (newton_root NMX NF NDm NHK NCS P fuel x0)).
+Proof. exact (newton_cons_l NMX NF NDm NHK NCS). Qed.
+
+(* the log of a closed run contains no direction that is not get_direction of its query: the answer
+   does not depend on the call count, i.e. on what the recycled InSitu buffers held before *)
+Theorem newton_closed_directions : forall (P : nw_params) fuel x0 m y J d,
+  In (NvDir m y J d) (snd (newton_root NMX NF NDm NHK NCS P fuel x0)) -> d = get_direction X bf dl m y J.
+Proof. exact (newton_closed_directions_l X bf dl NF NHK NCS). Qed.
+Theorem newton_min_closed_directions : forall (P : nm_params) fuel x0 m g H d,
+  In (MvDir m g H d) (snd (newton_min NMX K MF MPHI NDm MHK NCS P fuel x0)) -> d = get_direction X bf dl m g H.
+Proof. exact (newton_min_closed_directions_l X bf dl K MF MPHI MHK NCS). Qed.
+
+(* F-NEWTON-EIGENVALUE-MODE on the closed machine: with HessianModification{"Eigenvalue"} no step is
+   ever taken — a nil-error return (stop test, hook stop, cap) can only carry the start point *)
+Theorem newton_closed_eigenvalue_never_steps : forall (P : nw_params) fuel x0 x,
+  nw_mode P = 2%Z ->
+  (let o := fst (newton_root NMX NF NDm NHK NCS P fuel x0) in o = NwConv x \/ o = NwHook x \/ o = NwCap x) ->
+  x = x0.
+Proof. exact (newton_closed_eigenvalue_no_step_l X bf dl NF NHK NCS). Qed.
+End PropsNewtonClosed.
+
+(* "on strictly convex quadratic objectives it lies within tolerance of the unique minimiser", for
+   Newton over R WITHOUT the condition "if it returns converged": f(x) = 1/2 x'Ax - b'x (RunCrit's
+   answers y = Ax - b, J = A; A any n x n matrix, rows of length n).  If getDirection's answer t for
+   (grad f x0, A) solves the Newton equation A t = grad f x0 (for matrixInverse.Run this is C04's
+   gauss_jordan_correct), then from EVERY start point, for every epsilon > 0, cap >= 2, hook-free and
+   constraint-free parameter record and every fuel >= 2, newton_root returns converged at a point that
+   passes the stop test, and unless x0 already passed it that point is x0 - t and solves A x = b exactly.
+   No positive-definiteness is needed (Newton's root iteration on the gradient). *)
+Theorem newton_crit_quadratic_converges :
+  forall n (A : list (list R)) (b : list R), length A = n -> rows_ok n A -> length b = n ->
+  forall ND NHK NCS (P : nw_params (A := R)),
+  nw_hook P = false -> nw_cons P = false -> (0 < nw_eps P)%R -> (2 <= nw_maxit P)%Z ->
+  forall fuel x0 t, length x0 = n -> length t = n ->
+  (forall k, ND k (nw_mode P) (qgrad A b x0) A = DirOk t) -> mdotv NumR A t = qgrad A b x0 ->
+  nw_mode_valid (nw_mode P) = true ->
+  exists x tr, newton_root NumR (fun _ => quad_answer A b) ND NHK NCS P (S (S fuel)) x0 = (NwConv x, tr) /\
+    (norm NumR (qgrad A b x) < nw_eps P)%R /\
+    ((nw_eps P <= norm NumR (qgrad A b x0))%R -> x = vsub NumR x0 t /\ mdotv NumR A x = b).
+Proof. exact newton_crit_quadratic_converges_l. Qed.
+(* one dimension, CLOSED machine (getDirection "None" = C04's Gauss-Jordan model on the 1x1 system):
+   no hypothesis about the direction left; a <> 0 suffices *)
+Theorem newton_crit_1d_closed_converges : forall (a b0 x eps c bf dl : R) (maxit : Z) NHK NCS fuel,
+  a <> 0%R -> (0 < eps)%R -> (2 <= maxit)%Z ->
+  exists x' tr,
+    newton_root NumR (fun _ => quad_answer [[a]] [b0]) (ND_model NumXR bf dl) NHK NCS
+      (mkNw eps maxit false false 0%Z c) (S (S fuel)) [x] = (NwConv x', tr) /\
+    (norm NumR (qgrad [[a]] [b0] x') < eps)%R /\
+    ((eps <= norm NumR (qgrad [[a]] [b0] [x]))%R -> x' = [(b0 / a)%R]).
+Proof. exact newton_crit_1d_closed_l. Qed.
+(* mdotv is linear on well-shaped matrices: the quadratic corollary of round 2 without its linearity hypothesis *)
+Theorem quadratic_distance_shaped : forall n (A : list (list R)) (b xs : list R) mu,
+  (0 < mu)%R -> length A = n -> rows_ok n A -> length xs = n -> mdotv NumR A xs = b ->
+  (forall v, length v = n -> (mu * dot NumR v v <= dot NumR v (mdotv NumR A v))%R) ->
+  forall x eps, length x = n ->
+  (norm NumR (qgrad A b x) < eps)%R -> (norm NumR (vsub NumR x xs) < eps / mu)%R.
+Proof. exact quadratic_distance_shaped_l. Qed.
+
+(* the hypotheses are satisfiable: closed runs on binary64 and on R *)
+Example newton_closed_converges_2d :
+  exists x tr, newton_root NumF (fun _ => q2) mNDF noNHK noNCS Pn 100 [5%float; (-7)%float] = (NwConv x, tr) /\
+     PrimFloat.ltb (norm NumF (n_y (q2 x))) eps8 = true /\ nw_n_dirs tr = 1%nat /\
+     In (NvDir 0%Z [2%float; (-18)%float] A2 (DirOk [0x1.3333333333333p+2%float; (-0x1.e666666666667p+2)%float])) tr.
+Proof. exact newton_closed_converges_2d_l. Qed.
+Example get_direction_examples :
+  get_direction_F 0%Z [1%float; (-1)%float] [[0%float; 1%float]; [1%float; 0%float]] = DirOk [(-1)%float; 1%float] /\
+  get_direction_F 0%Z [1%float; 2%float] [[1%float; 2%float]; [2%float; 4%float]] = DirErr /\
+  (exists t, get_direction_F 1%Z [1%float; (-1)%float] [[1%float; 2%float]; [2%float; 1%float]] = DirOk t /\
+             PrimFloat.ltb 0%float (dot NumF [1%float; (-1)%float] t) = true) /\
+  get_direction_F 2%Z [1%float] [[1%float]] = DirPanic.
+Proof. exact get_direction_examples_l. Qed.
+Example newton_closed_eigenvalue_panics :
+  exists tr, newton_root NumF (fun _ => sq2) mNDF noNHK noNCS (mkNw eps8 50%Z false false 2%Z NWC_F) 100 [1%float] = (NwPanic, tr) /\
+     nw_n_dirs tr = 1%nat.
+Proof. exact newton_closed_eigenvalue_panics_l. Qed.
+Example newton_closed_ldl_converges :
+  exists x tr, newton_root NumF (fun _ => sq2) mNDF noNHK noNCS (mkNw eps8 50%Z false false 1%Z NWC_F) 100 [(-1)%float] = (NwConv x, tr) /\
+     PrimFloat.ltb (norm NumF (n_y (sq2 x))) eps8 = true /\ nw_n_dirs tr = 5%nat.
+Proof. exact newton_closed_ldl_converges_l. Qed.
+Example newton_crit_1d_closed_instance :
+  exists x' tr,
+    newton_root NumR (fun _ => quad_answer [[2%R]] [4%R]) (ND_model NumXR 0%R 0%R) (fun _ _ => false) (fun _ _ => true)
+      (mkNw 1%R 5%Z false false 0%Z 0.5%R) 2 [10%R] = (NwConv x', tr) /\ x' = [(4 / 2)%R].
+Proof. exact newton_crit_1d_closed_instance_l. Qed.
